@@ -307,6 +307,31 @@ Qed.
 
 
 (* ---- the declarations of the internal subset ---- *)
+Lemma parse_external_literal_ps s : SI hi s ->
+  psim (SI hi) Fh (parse_external_literal T1 s) (parse_external_literal T2 (Fh s)).
+Proof.
+  intros H. unfold parse_external_literal.
+  eapply psim_bind; [apply (consume_quote_ps S hi); exact H|]. intros [q s1] H1. cbn [pmap fst snd] in *. unfold idf. cbv beta iota zeta.
+  unfold consume_bytes. cbv zeta.
+  rewrite (s_pos_F S). destruct (skip_bytes_F S hi (fun y => negb (y =? q)) s1 H1) as [E H2]. rewrite E.
+  eapply psim_bind; [eapply psim_bind; [apply (slice_back_ps S hi); [nsd|exact H2]|]|].
+  { intros v Hv. cbv beta. apply psim_ret with (g := pmap shl Fh) (I := fun x => (LS hi (fst x) /\ sl_start (fst x) = s_pos s1) /\ SI hi (snd x));
+      [cbn [fst snd]; split; [split; apply Hv|exact H2]|reflexivity]. }
+  intros [v s2] [[Hv Hv1] H2']. cbn [pmap fst snd] in *. cbv beta iota.
+  eapply psim_bind; [apply (is_xml_str_ps S hi); [exact Hv|symmetry; exact Hv1]|]. intros u _. unfold idf.
+  apply (consume_byte_ps S hi); exact H2'.
+Qed.
+
+Lemma parse_pubid_literal_ps s : SI hi s ->
+  psim (SI hi) Fh (parse_pubid_literal T1 s) (parse_pubid_literal T2 (Fh s)).
+Proof.
+  intros H. unfold parse_pubid_literal.
+  eapply psim_bind; [apply (consume_quote_ps S hi); exact H|]. intros [q s1] H1. cbn [pmap fst snd] in *. unfold idf. cbv beta iota zeta.
+  destruct (skip_bytes_F S hi (fun y => negb (y =? q) && pubid_char y) s1 H1) as [E H2]. rewrite E.
+  eapply psim_bind; [apply (curr_byte_ps S hi); exact H2|]. intros x _. unfold idf.
+  destruct (negb (x =? q)); [eat|apply (advance_ps' S hi); exact H2].
+Qed.
+
 Lemma parse_external_id_ps s : SI hi s ->
   psim (fun x => SI hi (snd x)) (pmap idf Fh) (parse_external_id T1 s) (parse_external_id T2 (Fh s)).
 Proof.
@@ -316,15 +341,13 @@ Proof.
   eapply psim_bind; [apply (advance_ps' S hi); exact H|]. intros s1 H1. cbv beta.
   eapply psim_bind; [apply (slice_back_ps' S hi); [nsd|exact H1]|]. intros id Hid. cbv beta.
   eapply psim_bind; [apply (consume_spaces_ps S hi); exact H1|]. intros s2 H2. cbv beta.
-  eapply psim_bind; [apply (consume_quote_ps S hi); exact H2|]. intros [q s3] H3. cbn [pmap fst snd] in *. unfold idf. cbv beta iota.
-  eapply psim_bind; [apply (consume_bytes_ps S hi); exact H3|]. intros [v s4] [_ H4]. cbn [pmap fst snd] in *. cbv beta iota.
-  eapply psim_bind; [apply (consume_byte_ps S hi); exact H4|]. intros s5 H5. cbv beta.
   rewrite (slice_bytes_s S hi) by exact Hid.
-  destruct (bytes_eqb _ _); [apply psim_ret; [exact H5|reflexivity]|].
+  destruct (bytes_eqb _ _).
+  { eapply psim_bind; [apply parse_external_literal_ps; exact H2|]. intros s3 H3. cbv beta.
+    apply psim_ret; [exact H3|reflexivity]. }
+  eapply psim_bind; [apply parse_pubid_literal_ps; exact H2|]. intros s5 H5. cbv beta.
   eapply psim_bind; [apply (consume_spaces_ps S hi); exact H5|]. intros s6 H6. cbv beta.
-  eapply psim_bind; [apply (consume_quote_ps S hi); exact H6|]. intros [q2 s7] H7. cbn [pmap fst snd] in *. unfold idf. cbv beta iota.
-  eapply psim_bind; [apply (consume_bytes_ps S hi); exact H7|]. intros [v2 s8] [_ H8]. cbn [pmap fst snd] in *. cbv beta iota.
-  eapply psim_bind; [apply (consume_byte_ps S hi); exact H8|]. intros s9 H9. cbv beta.
+  eapply psim_bind; [apply parse_external_literal_ps; exact H6|]. intros s9 H9. cbv beta.
   apply psim_ret; [exact H9|reflexivity].
 Qed.
 
@@ -347,8 +370,10 @@ Proof.
     eapply psim_bind; [apply parse_external_id_ps; exact H|]. intros [found s1] H1. cbn [pmap fst snd] in *. unfold idf. cbv beta iota.
     destruct found; [|eat].
     destruct g; [|apply psim_ret; [split; [exact I|exact H1]|reflexivity]].
-    cbv zeta. destruct (skip_spaces_F S hi s1 H1) as [E H2]. rewrite E, (starts_with_F S) by exact H2.
+    cbv zeta. rewrite (starts_with_space_F S) by exact H1.
+    destruct (skip_spaces_F S hi s1 H1) as [E H2]. rewrite E, (starts_with_F S) by exact H2.
     destruct (starts_with _ _); [|apply psim_ret; [split; [exact I|exact H2]|reflexivity]].
+    destruct (negb (starts_with_space s1)); [eat|].
     eapply psim_bind; [apply (advance_ps' S hi); exact H2|]. intros s3 H3. cbv beta.
     eapply psim_bind; [apply (consume_spaces_ps S hi); exact H3|]. intros s4 H4. cbv beta.
     eapply psim_bind; [apply (skip_name_ps S hi); exact H4|]. intros s5 H5. cbv beta.
